@@ -243,6 +243,18 @@ func c14Once(p *g3Proto, role protocol.ProtocolRole, pct int, path []*g3Sample, 
 			moved = 1
 		}
 	}
+	// Re-arming: once the conversation has moved on, the timer of the state just left must be
+	// gone.  Wait until well after its deadline and look for a timeout that fired earlier than
+	// any timer armed by the move could (judged on event timestamps, not on how late we wake up).
+	staleCheck := moved == 1 && pct <= 50 && armedNow
+	var movedAt time.Time
+	if staleCheck {
+		ev, _ = fx.snapshot()
+		movedAt = ev[lastStateIdx(ev)].At
+		if d := time.Until(t0.Add(T * 13 / 10)); d > 0 {
+			fx.waitFor(d, hasErr)
+		}
+	}
 	ev, _ = fx.snapshot()
 	cls := "none"
 	var errAt time.Time
@@ -269,7 +281,13 @@ func c14Once(p *g3Proto, role protocol.ProtocolRole, pct int, path []*g3Sample, 
 	// in a run that was meant to move well before that, only shows that the harness was too
 	// slow: not judged, repeated with a longer timeout.  (A timer firing EARLIER than its
 	// timeout is reported.)
-	if pct <= 50 && cls == "timeout" && armed == 1 && errAt.Sub(t0) >= T*95/100 {
+	if staleCheck && cls == "timeout" {
+		// a timeout after the move: legitimate only if it belongs to a timer armed by the move
+		// (>= T after it; every other state's timeout is an hour)
+		if errAt.Sub(movedAt) >= T*95/100 {
+			cls = "none"
+		}
+	} else if pct <= 50 && cls == "timeout" && armed == 1 && errAt.Sub(t0) >= T*95/100 {
 		return "", false
 	}
 	return fmt.Sprintf("err=%s armed=%d moved=%d", cls, armed, moved), true
